@@ -222,3 +222,23 @@ func VerifC19_HelpWideNames() {
 	_ = err
 	vReach("helped")
 }
+
+// Tokens with bytes that are not valid UTF-8 (concrete patterns; the symbolic
+// harnesses stay inside valid UTF-8) in all modes: Parse, Dispatch, Help return.
+func VerifC19_RawBytes() {
+	vNativeReset()
+	mode := vInt("mode", 0, 2)
+	um := vInt("um", 0, 2)
+	tok := []string{"-\xff", "-\x80a", "-\xe6\x97", "-\xff=value", "--\xff", "-s\xff", "\xff", "-\xed\xa0\x80", "-b\xc3", "--s=\xff\xfe", "-\xf8\x88\x80\x80\x80x"}[vInt("tok", 0, 10)]
+	second := vBool("second")
+	opt, _, _ := rawDefinition(mode, um, false)
+	opt.HelpCommand("help")
+	args := []string{tok}
+	if second {
+		args = append(args, "v")
+	}
+	vPhase("run")
+	remaining, err := opt.Parse(args)
+	vObserve("err", err != nil)
+	c19after(opt, remaining, err)
+}
